@@ -2,6 +2,7 @@
 prescribe.  Model: lean/RedunModel/Model/EvalCore.lean (big-step relation `Eval`, executable `evalAll`/`evalFuel`),
 task table lean/RedunModel/Model/EvalLib.lean <-> harness/props/_evallib.py."""
 import random
+import time
 
 ID = "C01"
 READY = True
@@ -59,6 +60,8 @@ LEVEL_NOTE = ("PARTIAL with respect to the design's C01_sound: the event-loop ma
 TECHNIQUE = "Lean 4 big-step semantics + sound & complete set-valued evaluator; differential testing of generated workflows on the real Scheduler under controlled schedules"
 
 FUEL = 120
+TIMING_CORPUS = ("catch_all", "shared", "fork", "two-errors", "catch-two-errors", "seq-stops", "containers")
+CPU_BUDGET_QUICK, CPU_BUDGET_THOROUGH = 10.0, 330.0       # seconds of process CPU for the generated stream (not wall clock)
 
 
 def corpus():
@@ -158,6 +161,7 @@ def corpus():
         "fork-multi-never-joined": L.const(1, L.fork_deep(0, "V")),
         "recursion": L.rsum(4),
         "deep-failure": L.fail_after(3, "S"),
+        "unpicklable-error": [L.inc(1), L.inc(L.busy(1))],
         "two-errors": [L.raiser("V", 1), L.raiser("K", 2)],
         "kwonly": L.kwonly(1, m=2),
         "varargs": L.varsum(1, 2, L.inc(3), scale=2),
@@ -257,7 +261,7 @@ def run(ctx):
     for name, e in corpus().items():
         progs.append((name, e, G.to_sx(e), {"source": "corpus"}))
     base = rng.getrandbits(48)
-    n = ctx.n(120, 900)
+    n = ctx.n(45, 900)
     feats = {}
     for i in range(n):
         prng = random.Random(base + i)
@@ -279,15 +283,26 @@ def run(ctx):
         ctx.count("feature", k, v)
     replies = ctx.model("C01", ["(eval i%d %s)" % (FUEL, sx) for _, _, sx, _ in progs])
     k_seeds = 2 if ctx.tier == "quick" else 3
+    t_cpu = None
+    cpu_budget = (CPU_BUDGET_QUICK if ctx.tier == "quick" else CPU_BUDGET_THOROUGH) * ctx.search_boost
     for idx, ((name, e, sx, tags), rep) in enumerate(zip(progs, replies)):
         # completion orders: first-submitted-first and last-submitted-first (a shared / earlier term finishes before or
-        # after its siblings) plus seeded random ones; quick tier: both fixed orders for the corpus, alternating otherwise
-        if ctx.tier != "quick" or tags.get("source") == "corpus":
-            fixed = ["fifo", "lifo"]
+        # after its siblings) and seeded random ones.  Quick tier: corpus programs about timing (catch_all, shared terms,
+        # fork/join, several failing siblings) run under both fixed orders, the rest of the corpus and the generated programs
+        # under one order each (alternating fifo / lifo / random); thorough tier: fifo, lifo and two random orders for all.
+        corpus_entry = tags.get("source") == "corpus"
+        if not corpus_entry and t_cpu is None:
+            t_cpu = time.process_time()         # the budget covers the generated stream only
+        if not corpus_entry and time.process_time() - t_cpu > cpu_budget:
+            ctx.note("CPU budget reached after %d of %d programs (corpus always runs in full)" % (idx, len(progs)))
+            ctx.count("budget", "generated programs skipped", len(progs) - idx)
+            break
+        if ctx.tier != "quick":
+            seeds = ["fifo", "lifo"] + [rng.getrandbits(30) for _ in range(k_seeds - 1)]
+        elif corpus_entry and name.startswith(TIMING_CORPUS):
+            seeds = ["fifo", "lifo"]
         else:
-            fixed = ["fifo"] if idx % 2 == 0 else ["lifo"]
-        extra = 0 if (ctx.tier == "quick" and tags.get("source") == "corpus") else max(1, k_seeds - 1)
-        seeds = fixed + [rng.getrandbits(30) for _ in range(extra)]
+            seeds = [["fifo"], ["lifo"], [rng.getrandbits(30)]][idx % 3]
         check_program(ctx, G, R, name, e, sx, rep, seeds, tags)
     free_running(ctx, G, R, base)
 
@@ -295,10 +310,10 @@ def run(ctx):
 def free_running(ctx, G, R, base):
     """a few programs per run on the real executors: thread pool, process pool (fork), async tasks"""
     plans = [("thread", ("thread", None), False), ("process", ("process", None), False), ("async", (None,), True)]
-    per = ctx.n(5, 30)
+    per = ctx.n(2, 30)
     progs = []
     for mode, modes, allow_async in plans:
-        for i in range(per):
+        for i in range(per if (mode != "process" or ctx.tier != "quick") else 1):
             prng = random.Random(base * 7 + hash(mode) % 1000 + i)
             prng = random.Random("%d-%s-%d" % (base, mode, i))
             gen = G.Gen(prng, p_err=prng.choice([0.0, 0.1, 0.2]), modes=modes, allow_async=allow_async, max_fan=3)
